@@ -49,7 +49,10 @@ throw_libdw (int dwerr = 0)
 {
   if (dwerr == 0)
     dwerr = dwarf_errno ();
-  assert (dwerr != 0);
+  // libdw doesn't always set the error code.  E.g. a failure to read the
+  // line table of a CU is cached, and only reported the first time around.
+  if (dwerr == 0)
+    throw std::runtime_error ("libdw reports a failure, but no error code");
   throw std::runtime_error (dwarf_errmsg (dwerr));
 }
 
